@@ -454,3 +454,73 @@ def hs_decode(txt):
     if txt.startswith('!'):
         return txt
     return '' if txt == '-' else bytes.fromhex(txt).decode('utf-8', 'surrogatepass')
+
+
+# ---------------------------------------------------------------------------------------------------------
+# end to end: bytes of a version-2 dump -> PyKdebugParser.formatted_traces lines (driver command `e2e`)
+
+def e2e_case(rng):
+    from . import streams
+    s = Stream(rng)
+    s.ts = 256 * rng.randrange(1, 1000)           # the first record must not begin with a zero byte (K1)
+    tids = [rng.choice([5, 6, 7, 99, 1000]) for _ in range(3)]
+    for _ in range(rng.randrange(1, 8)):
+        add_operation(s, rng, tids)
+    recs = s.recs
+    if recs and recs[0][0] == 0:
+        recs = [bytes([1]) + recs[0][1:]] + recs[1:]
+    names = ['launchd', 'kernel_task', 'a', '', 'naïve', 'x' * 19]
+    tmap = [(t, rng.choice([1, 42, 77]), rng.choice(names)) for t in rng.sample(sorted(set(tids)), rng.randrange(0, len(set(tids)) + 1))]
+    data = streams.v2_file(tmap, recs)
+    cut = None
+    if rng.random() < 0.25:
+        cut = rng.randrange(0, len(data) + 1)
+        data = data[:cut]
+    r = rng.random()
+    classes = [] if r < 0.5 else rng.choice([[4], [4, 7], [7], [3, 4], [1], [0x25], [4, 1], [0x1f]])
+    subs = [] if rng.random() < 0.7 else rng.choice([[0x040c], [0x0140], [0x0701], [0x040c, 0x0140], [0x040e]])
+    tid = None if rng.random() < 0.6 else rng.choice(tids + [0, 12345])
+    proc = None if rng.random() < 0.7 else rng.choice(['launchd', '42', '77', '', '-1', 'a', 'nope'])
+    bits = ''.join(rng.choice('01') for _ in range(6))
+    codes = restricted_codes(recs, extra=('VFS_LOOKUP',))
+    return {'codes': {str(k): v for k, v in codes.items()}, 'file': data.hex(), 'tid': tid, 'classes': classes, 'subs': subs,
+            'proc': proc, 'bits': bits, 'cut': cut}
+
+
+def e2e_line(c):
+    codes = {int(k): v for k, v in c['codes'].items()}
+    return 'e2e %s %s %s %s %s %s %s' % (
+        codes_arg(codes), 'N' if c['tid'] is None else c['tid'], ','.join(map(str, c['classes'])) or '-',
+        ','.join(map(str, c['subs'])) or '-', 'N' if c['proc'] is None else hs(c['proc']), c['bits'], c['file'] or '-')
+
+
+def e2e_impl(c):
+    import io
+    from pykdebugparser.pykdebugparser import PyKdebugParser
+    p = PyKdebugParser()
+    p.color = False
+    p.filter_tid, p.filter_process = c['tid'], c['proc']
+    p.filter_class, p.filter_subclass = list(c['classes']), list(c['subs'])
+    (p.show_timestamp, p.show_name, p.show_func_qual, p.show_tid, p.show_process, p.show_args) = [b == '1' for b in c['bits']]
+    codes = {int(k): v for k, v in c['codes'].items()}
+    lines, err = [], '-'
+    try:
+        for ln in p.formatted_traces(io.BytesIO(bytes.fromhex(c['file'])), codes):
+            lines.append(hs(ln))
+    except Exception as e:
+        err = core.err_name(e)
+    return 'ok %s ;err=%s' % (' '.join(lines) or '-', err)
+
+
+def section_e2e(rep, rng, tier, n=None, oracle_fn=None):
+    n = n or (250 if tier == 'quick' else 8000)
+    cases = [e2e_case(rng) for _ in range(n)]
+    core.run_section(
+        rep, 'end-to-end', cases, line_fn=e2e_line, impl_fn=e2e_impl, oracle_fn=oracle_fn, skip_fn=lambda m: 'Unmodelled' in m,
+        nontrivial_fn=lambda c, got: not got.startswith('ok - '),
+        kind_fn=lambda c, got: ('cut' if c['cut'] is not None else 'whole') + ':' + got.rsplit(';err=', 1)[1],
+        rule='bytes of a version-2 dump (thread map, random operations, sometimes truncated) x tid / process / class / '
+             'subclass filters x the six show_* switches: the lines of PyKdebugParser.formatted_traces(BytesIO(file), codes) '
+             'with colour off vs the composition of the layer models (container -> event filter -> TracesParser -> post-filters '
+             '-> line builder), including the exception that ends the iteration',
+        sample_fn=lambda c: {k: c[k] for k in ('tid', 'classes', 'subs', 'proc', 'bits', 'cut')})
